@@ -49,6 +49,15 @@ def c02_programs(rng, n):
     # channel passed over a channel, traffic on the passed channel
     out.append(prog([("u1", [("remote_exec", "c", 1), ("newchannel", "d"), ("sendchan", "c", "d"), ("receive_all", "d"), ("waitclose", "c")])],
                     {1: [("recvchan", "channel", "x"), ("send", "x", 201), ("send", "x", 202), ("close", "x")]}))
+    # a callback channel whose object was dropped before the items arrive: the callback still gets every item
+    out.append(prog([("u1", [("remote_exec", "c", 1), ("setcallback", "c", True), ("drop", "c"), ("open_gate", "go"),
+                             ("remote_exec", "e", 2), ("receive_all", "e")])],
+                    {1: [("wait_gate", "go"), ("send", "channel", 201), ("send", "channel", 202), ("send", "channel", 203)], 2: [("send", "channel", 221)]}))
+    # large items from two threads at once on one gateway (frames far above any buffer / split threshold)
+    out.append(prog([("u1", [("remote_exec", "a", 1), ("sendbig", "a", 101), ("sendbig", "a", 102), ("receive_all", "a")]),
+                     ("u2", [("remote_exec", "b", 2), ("sendbig", "b", 111), ("send", "b", 112), ("receive_all", "b")])],
+                    {1: [("receive", "channel"), ("receive", "channel"), ("sendbig", "channel", 201)],
+                     2: [("receive", "channel"), ("receive", "channel"), ("send", "channel", 211)]}))
     # generated: k channels, random shapes
     for _ in range(n):
         T = Toks()
@@ -124,6 +133,11 @@ def c03_programs(rng, n):
     out.append(prog([("u1", [("remote_exec", "c", 1), ("receive_all", "c")]),
                      ("u2", [("await", "c"), ("close", "c"), ("isclosed", "c"), ("send", "c", 150), ("waitclose", "c")])],
                     {1: [("send", "channel", 201), ("send", "channel", 202), ("receive", "channel")]}))
+    # the remote code ends because an EOFError escapes from a receive on a second channel (which the initiator closed):
+    # its own channel must close all the same
+    out.append(prog([("u1", [("remote_exec", "c", 1), ("newchannel", "d"), ("sendchan", "c", "d"), ("send", "d", 101), ("close", "d"),
+                             ("receive_all", "c"), ("waitclose", "c"), ("isclosed", "c")])],
+                    {1: [("recvchan", "channel", "x"), ("send", "channel", 201), ("receive", "x"), ("receive_escape", "x")]}))
     for _ in range(n):
         k = rng.randint(0, 3)
         nrecv = rng.randint(1, 3)
@@ -161,6 +175,13 @@ def c07_programs(rng, n):
                          ("u2", [("remote_exec", "s", 2), ("receive_all", "s"), ("hasreceiver",)])],
                         {1: [("send", "channel", 201), ("send", "channel", 202), ("send", "channel", 203), ("waitclose", "channel")],
                          2: [("send", "channel", 211), ("send", "channel", 212)]}))
+    # callbacks raising other exception types (KeyError, OSError, EOFError are handled specially elsewhere in the code)
+    for kind in ("key", "os", "eof", "lookup"):
+        out.append(prog([("u1", [("remote_exec", "c", 1), ("wait_gate", "ready"), ("send", "c", 101), ("send", "c", 102), ("waitclose", "c"), ("isclosed", "c"),
+                                 ("remote_exec", "s", 2), ("receive_all", "s"), ("hasreceiver",)])],
+                        {1: [("setcallback", "channel", False, 102, kind), ("open_gate", "ready"), ("waitclose", "channel")], 2: [("send", "channel", 211)]}))
+        out.append(prog([("u1", [("remote_exec", "c", 1), ("open_gate", "go"), ("setcallback", "c", False, 201, kind), ("waitclose", "c"), ("hasreceiver",)])],
+                        {1: [("wait_gate", "go"), ("send", "channel", 201), ("waitclose", "channel")]}))
     # a callback on the worker raises; the worker-side channel object is kept / dropped
     out.append(prog([("u1", [("remote_exec", "c", 1), ("newchannel", "d"), ("sendchan", "c", "d"), ("send", "d", 101), ("send", "d", 102),
                              ("waitclose", "d"), ("isclosed", "d"), ("waitclose", "c"), ("hasreceiver",)])],
@@ -221,6 +242,25 @@ def c10_programs(rng, n):
                     {1: [("wait_gate", "go"), ("send", "channel", 201), ("send", "channel", 202)], 2: [("send", "channel", 221)]}))
     out.append(prog([("u1", [("remote_exec", "c", 1), ("setcallback", "c", True), ("drop", "c"), ("open_gate", "go"), ("wait_gate", "sent"), ("exit",), ("join",)])],
                     {1: [("wait_gate", "go"), ("send", "channel", 201), ("open_gate", "sent"), ("receive", "channel")]}))
+    # MultiChannel.make_receive_queue over two / three member channels: per member in order, then one endmarker each
+    out.append(prog([("u1", [("remote_exec", "a", 1), ("remote_exec", "b", 2), ("mc_queue", ["a", "b"], True, "q"), ("mc_drain", "q")])],
+                    {1: [("send", "channel", 201), ("send", "channel", 202)], 2: [("send", "channel", 211), ("send", "channel", 212), ("send", "channel", 213)]}))
+    out.append(prog([("u1", [("remote_exec", "a", 1), ("remote_exec", "b", 2), ("remote_exec", "c", 3), ("open_gate", "go"),
+                             ("mc_queue", ["a", "b", "c"], True, "q"), ("mc_drain", "q")])],
+                    {1: [("send", "channel", 201), ("wait_gate", "go"), ("send", "channel", 202)], 2: [("raise",)],
+                     3: [("wait_gate", "go"), ("send", "channel", 221)]}))
+    # the peer closed first, then setcallback (delivers the endmarker itself), then the gateway ends: still exactly one endmarker
+    out.append(prog([("u1", [("remote_exec", "c", 1), ("waitclose", "c"), ("setcallback", "c", True), ("exit",), ("join",)])],
+                    {1: [("send", "channel", 201), ("send", "channel", 202)]}))
+    out.append(prog([("u1", [("remote_exec", "c", 1), ("waitclose", "c"), ("setcallback", "c", True), ("close", "c"), ("exit",), ("join",)])],
+                    {1: [("send", "channel", 201)]}))
+    # connection loss racing with setcallback
+    out.append(prog([("u1", [("remote_exec", "c", 1), ("receive", "c"), ("open_gate", "go"), ("setcallback", "c", True), ("waitclose", "c")]),
+                     ("u2", [("wait_gate", "go"), ("cut", "w>i")])],
+                    {1: [("send", "channel", 201), ("send", "channel", 202), ("receive", "channel")]}))
+    out.append(prog([("u1", [("remote_exec", "c", 1), ("open_gate", "go"), ("setcallback", "c", True), ("waitclose", "c")]),
+                     ("u2", [("wait_gate", "go"), ("cut", "w>i")])],
+                    {1: [("receive", "channel")]}))
     # ends by exit of the gateway (receiver-side finished)
     out.append(prog([("u1", [("remote_exec", "c", 1), ("setcallback", "c", True), ("receive", "c")]),
                      ("u2", [("await", "c"), ("wait_gate", "sent"), ("exit",), ("join",)])],
@@ -299,4 +339,7 @@ def c04_programs():
                     {1: [("send", "channel", 201), ("send", "channel", 202), ("receive", "channel")], 9: []}))
     out.append(prog([("u1", [("remote_exec", "c", 1), ("setcallback", "c", True), ("waitclose", "c")] + post)],
                     {1: [("send", "channel", 201), ("send", "channel", 202), ("send", "channel", 203), ("receive", "channel")], 9: []}))
+    # a callback channel whose object was dropped: its endmarker must still come when the connection is lost
+    out.append(prog([("u1", [("remote_exec", "k", 2), ("setcallback", "k", True), ("drop", "k"), ("remote_exec", "c", 1), ("receive_all", "c")] + post)],
+                    {1: [("send", "channel", 201), ("receive", "channel")], 2: [("send", "channel", 211), ("receive", "channel")], 9: []}))
     return out
